@@ -27,6 +27,7 @@ import z3
 from contracts.histories import tree_snapshot
 from pyvc.contracts import Contract
 from pyvc.core import fresh_name
+from pyvc.values import Opaque, PDict, PList
 
 OPS = ("points", "group", "data", "pgroup", "reuse_same", "reuse_cross", "reuse_data", "reuse_pg", "pg_reuse", "reuse_type", "copy_same", "copy_other", "copy_other_again", "copy_type_other", "remove", "remove_other", "recreate", "reopen", "gc")
 
@@ -546,3 +547,127 @@ class CopyIdentifiersByKind(Contract):
 
 
 CONTRACTS = CONTRACTS + [CopyIdentifiersByKind]
+
+
+# ------------------------------------------------------------------------------------------
+# Entity.__init__: refused creations (abstract execution of every path)
+# ------------------------------------------------------------------------------------------
+_REFUSALS = (ValueError, TypeError, KeyError, AssertionError, AttributeError, IndexError, RuntimeError, UserWarning)
+
+
+class MapAttributesStub(Contract):
+    """summary of map_attributes for Entity.__init__: the `parent` keyword (handled first by the real
+    function's callers' conventions) puts the entity into the parent's child list; a later keyword may
+    be refused with any exception class."""
+    target = "geoh5py/shared/utils.py::map_attributes"
+    symbolic = False
+    props = ()
+    behaviour = {"refuse_with": None}
+
+    def apply(self, I, args, kwargs):
+        from pyvc.core import RaiseSig
+
+        ent = args[0]
+        parent = kwargs.get("parent")
+        if parent is not None:
+            ent.attrs["_parent"] = parent
+            parent.attrs["_children"].items.append(ent)
+            I.event("joined-the-parent")
+        exc = self.behaviour["refuse_with"]
+        if exc is not None:
+            raise RaiseSig(exc, "map_attributes")
+        return None
+
+
+class EntityInitRefusal(Contract):
+    """Entity.__init__: (i) an identifier asked for under either spelling (`uid=` or the file's `ID`
+    key) that a live entity holds is refused before the entity touches anything; (ii) when an
+    attribute is refused after the parent was assigned -- with whatever exception class -- the
+    half-built entity is out of its parent's child list when the exception reaches the caller and
+    was never registered; (iii) an accepted creation is registered once and stays with its parent."""
+    target = "geoh5py/shared/entity.py::Entity.__init__"
+    variant = "refusals"
+    props = ("C01", "C02", "C06", "C09", "C11")
+    lenient = True
+    uses = (MapAttributesStub,)
+
+    def cases(self):
+        return [("taken", "uid"), ("taken", "ID"), ("taken", "ID-as-text")] + [("refused", e.__name__) for e in _REFUSALS] + [("accepted", "-")]
+
+    def setup(self, ctx):
+        import uuid
+
+        from geoh5py.objects import Points
+
+        kind, how = ctx.case
+        me = Opaque("self", cls=Points)
+        from geoh5py.groups import ContainerGroup
+
+        parent = Opaque("parent", cls=ContainerGroup)  # its `children` (if asked for) is the real property getter, interpreted
+        sibling = Opaque("sibling")
+        for o in (me, parent, sibling):
+            o.distinct = True
+        parent.attrs["_children"] = PList([sibling])
+        taken, free = uuid.UUID(int=5), uuid.UUID(int=6)
+        ws = Opaque("workspace")
+        fe = Opaque("find_entity")
+
+        holder = Opaque("holder")
+        ctx.path.assume(holder.truth_var())
+        ctx.path.assume(z3.Not(holder.none_var()))
+
+        def find(I, a, kw):
+            I.event("lookup", uid=a[0])
+            return holder if a[0] == taken else None
+
+        fe.maybe_method = find
+        ws.attrs["find_entity"] = fe
+        reg = Opaque("register")
+        reg.maybe_method = lambda I, a, kw: I.event("registered", entity=a[0])
+        ws.attrs["register"] = reg
+        me.attrs["workspace"] = ws
+        me.attrs["_default_name"] = "Entity"
+        MapAttributesStub.behaviour["refuse_with"] = dict((e.__name__, e) for e in _REFUSALS).get(how) if kind == "refused" else None
+        kwargs = {"parent": parent, "name": "x"}
+        uid = free
+        if kind == "taken":
+            if how == "uid":
+                uid = taken
+            elif how == "ID":
+                kwargs["ID"] = taken
+            else:
+                kwargs["ID"] = "{" + str(taken) + "}"
+        ctx.env.update(me=me, parent=parent, sibling=sibling, kind=kind)
+        return [me, uid], kwargs
+
+    def _stays_out(self, ctx):
+        e = ctx.env
+        kids = e["parent"].attrs["_children"].items
+        return not any(k is e["me"] for k in kids) and any(k is e["sibling"] for k in kids) and len(kids) == 1
+
+    def post(self, ctx, result):
+        e = ctx.env
+        events = [k for k, p in ctx.path.events]
+        if e["kind"] != "accepted":
+            ctx.oblige("a-taken-identifier-or-a-refused-attribute-ends-the-creation", False, note="the constructor returned normally")
+            return
+        kids = e["parent"].attrs["_children"].items
+        ctx.oblige("an-accepted-entity-is-registered-once-and-stays-with-its-parent", events.count("registered") == 1 and sum(1 for k in kids if k is e["me"]) == 1 and len(kids) == 2)
+
+    def post_raises(self, ctx, sig):
+        e = ctx.env
+        events = [k for k, p in ctx.path.events]
+        if e["kind"] == "accepted":
+            ctx.oblige("an-acceptable-creation-is-not-refused", False, kind="post-exc", note=f"{sig.exc_class.__name__} at {sig.origin}")
+            return
+        if e["kind"] == "taken":
+            ctx.oblige("a-taken-identifier-is-refused-before-the-entity-joins-anything", sig.exc_class is RuntimeError and "joined-the-parent" not in events and "registered" not in events and self._stays_out(ctx),
+                       kind="post-exc", note=f"{sig.exc_class.__name__}; events {events}")
+            return
+        ctx.oblige("a-refused-entity-is-out-of-its-parent's-child-list-whatever-the-exception-class", self._stays_out(ctx), kind="post-exc",
+                   note=f"after {sig.exc_class.__name__} the parent's children are {e['parent'].attrs['_children'].items}")
+        ctx.oblige("a-refused-entity-was-never-registered", "registered" not in events, kind="post-exc")
+        ctx.oblige("the-caller-sees-the-refusal-itself", sig.exc_class.__name__ == ctx.case[1], kind="post-exc", note=f"{sig.exc_class.__name__}")
+
+
+CONTRACTS = CONTRACTS + [EntityInitRefusal]
